@@ -19,6 +19,7 @@ CONSTANTS
  Hist = TRUE
  Bug = "none"
  AnyConnId = FALSE
+ AtomicRelease = TRUE
  MoveKinds = {"ctrlr", "topic", "add"}
 INVARIANTS TypeOK C12_Routing C12_Address C12_Version C12_FollowLeader C12_CacheFilter C06t_OwnResponse C06t_ReleaseOnlyAfterComplete C06t_NoReuseAfterFailure C09t_CancelPrompt C09t_ClosedPoolConnsClose
 PROPERTIES C12_GrabIsLatest C06t_DeadStaysDead
